@@ -7,6 +7,10 @@ from pathlib import Path
 VERIF = Path(__file__).resolve().parent.parent
 GUARD = 'GEOPHIRES_X_VERIF'
 
+TR = (' TRANSLATOR TIE: tools/py2lean.py regenerates, on every run, Lean definitions from the current source text of {fns} '
+      '(Generated/Code.lean); theorems {thms} prove for ALL arguments that the transcription equals the model the other theorems are about, so a change of that source '
+      'breaks a proof obligation (then the differential search looks for the failing input).')
+
 # id -> (level text, level note, technique)   -- only properties whose check exists and passes on the unchanged tree
 CLAIMED = {
     'C16': (
@@ -62,10 +66,11 @@ CLAIMED['C02'] = (
     'every cogeneration cycle, heat-pump and chiller COP relations, net = gross - pumping, district-heating daily split (geothermal + peaking = '
     'demand, geothermal <= well output), linearity of the yearly integration (annual net = annual gross - annual pumping, annual heat = efficiency x '
     'annual extracted), trapezoid form of a full slice, constant power x 8760 h x utilisation, remaining heat = initial - cumulative extracted; '
-    'tied to the code by whole runs (all power series, all annual figures, remaining heat and the district split recomputed exactly).',
-    'kernel + propext/Classical.choice/Quot.sound; gross electricity and cp are observed inputs; heat towards electricity recovered from the reported '
+    'tied to the code by whole runs (all power series, all annual figures, remaining heat and the district split recomputed exactly).'
+    + TR.format(fns='SurfacePlant.integrate_time_series_slice (slice, one-sample extrapolation, np.trapz)', thms='C02.code_integrate_is_model / code_annual_net'),
+    'kernel + propext/Classical.choice/Quot.sound; tools/py2lean.py (meaning given to the Python subset, np.trapz by its definition); gross electricity and cp are observed inputs; heat towards electricity recovered from the reported '
     'first-law efficiency; SUTRA/AGS surface plants not modelled; float rounding and the sampled correspondence trusted (DESIGN §5)',
-    'Lean 4 proof over an exact rational model + whole-run snapshot correspondence')
+    'Lean 4 proof over an exact rational model + source-to-Lean translation of the yearly integration proved equal to the model + whole-run snapshot correspondence')
 
 CLAIMED['C05'] = (
     'Lean theorems for every layer list, depth and series: bottom-hole temperature = surface temperature + integral of the gradients down to '
